@@ -27,6 +27,7 @@ import (
 	"net/http"
 	"net/http/httptest"
 	"net/url"
+	"os"
 	"runtime"
 	"sort"
 	"strings"
@@ -48,9 +49,15 @@ type zc33Obj struct {
 type zc33FakeGCS struct {
 	objs []zc33Obj
 	bad  []string
+	// tooLong counts uploads refused because the object name exceeds the store's limit
+	// (nothing is written).
+	tooLong int
 }
 
-func (f *zc33FakeGCS) reset() { f.objs, f.bad = nil, nil }
+// zc33MaxKey is the object-name limit the fake enforces, as GCS does (1024 bytes of UTF-8).
+const zc33MaxKey = 1024
+
+func (f *zc33FakeGCS) reset() { f.objs, f.bad, f.tooLong = nil, nil, 0 }
 
 // RoundTrip implements http.RoundTripper entirely in memory.
 func (f *zc33FakeGCS) RoundTrip(r *http.Request) (*http.Response, error) {
@@ -109,6 +116,13 @@ func (f *zc33FakeGCS) serve(w http.ResponseWriter, r *http.Request) {
 	body, _ := io.ReadAll(p2)
 	if q := r.URL.Query().Get("name"); q != "" && q != meta.Name {
 		fail("name in query differs from name in metadata")
+		return
+	}
+	if len(meta.Name) > zc33MaxKey {
+		f.tooLong++
+		w.Header().Set("Content-Type", "application/json")
+		w.WriteHeader(http.StatusBadRequest)
+		io.WriteString(w, `{"error":{"code":400,"message":"The specified object name is not valid.","errors":[{"reason":"invalid"}]}}`)
 		return
 	}
 	f.objs = append(f.objs, zc33Obj{Bucket: bucket, Name: meta.Name, Body: string(body), Encoding: meta.ContentEncoding})
@@ -226,11 +240,11 @@ type zc33Cfg struct {
 func zc33Configs() []zc33Cfg {
 	alt, none, zst := []string{"", "zstd"}, []string{""}, []string{"zstd"}
 	var out []zc33Cfg
-	positions := venum.QT([]int{0, 6, 8, 15, -1}, []int{0, 3, 4, 6, 7, 8, 9, 15, -1})
+	positions := venum.QT([]int{0, 6, 15}, []int{0, 3, 4, 6, 7, 8, 9, 15, -1})
 	for _, p := range positions {
 		out = append(out, zc33Cfg{pos: p, enc: alt, prefix: ""})
 	}
-	for _, p := range []int{15, -1} {
+	for _, p := range venum.QT([]int{-1}, []int{15, -1}) {
 		out = append(out, zc33Cfg{pos: p, enc: none, prefix: "p/"}, zc33Cfg{pos: p, enc: zst, prefix: "p/"})
 	}
 	return out
@@ -395,7 +409,7 @@ func TestVerif_C33_GCS(t *testing.T) {
 	// this execution, k enumerated; the storage client's own uuid.New() calls for invocation ids
 	// count as reads too — runs a second upload through handle 1 re-entrantly, before or after
 	// the bytes are delivered.
-	const longN = 130
+	longN := venum.QT(70, 130) // at least 66 uploads in every tier
 	overlapBody := func(x *venum.X, nOverlap int, cfgs []zc33Cfg) {
 		ov := x.Choose(nOverlap+1, "overlapped-entropy-read-index (last = no overlap)")
 		after := false
@@ -493,12 +507,111 @@ func TestVerif_C33_GCS(t *testing.T) {
 		x.Outcome("long uploads=%d overlap-happened=%v collisions=%d prefix-ok=%v len=%d", len(ups), happened, collisions,
 			strings.HasPrefix(ups[0].key, wantPrefix), len(ups[0].key)-len(wantPrefix))
 	}
-	// quick: the first 6 entropy reads of the execution; thorough: the first 70 (one read per
+	// quick: the first 3 entropy reads of the execution; thorough: the first 70 (one read per
 	// upload on the unchanged tree, so that is an overlap at each of the first 70 uploads)
 	venum.Explore(t, venum.Cfg{Name: "gcs-overlapped-entropy-read", Shardable: true, CheckDeterminism: true},
 		func(x *venum.X) {
-			overlapBody(x, venum.QT(6, 70), venum.QT(cfgs[3:4], []zc33Cfg{cfgs[0], cfgs[len(cfgs)-1]}))
+			overlapBody(x, venum.QT(3, 70), venum.QT(cfgs[2:3], []zc33Cfg{cfgs[0], cfgs[len(cfgs)-1]}))
 		})
+
+	// Boundary-length prefixes: the configured Prefix is as long as the store's object-name limit
+	// allows, or longer. The fake refuses names over the limit like GCS (nothing is written,
+	// Upload reports an error — allowed: the statement is about keys that ARE written). Whatever
+	// the backend does with such a prefix, the names it does write must be pairwise distinct.
+	const keyTail = 36 + 6 // the unique suffix the unchanged tree appends: a UUID and ".arrow"
+	longLens := venum.QT(
+		[]int{zc33MaxKey - keyTail - 1, zc33MaxKey - keyTail, zc33MaxKey - keyTail + 1, zc33MaxKey - 24, zc33MaxKey - 3, zc33MaxKey - 1, zc33MaxKey, zc33MaxKey + 1, zc33MaxKey + 76},
+		func() []int {
+			var l []int
+			for n := zc33MaxKey - keyTail - 12; n <= zc33MaxKey+2; n++ { // every length across the boundary
+				l = append(l, n)
+			}
+			return append(l, zc33MaxKey+76, 2*zc33MaxKey)
+		}())
+	longTmpl := map[int][2]*GCSStorage{}
+	longBody := func(x *venum.X, maxN int, positions []int) {
+		plen := longLens[x.Choose(len(longLens), "prefix-length")]
+		stream := zc33NewStream(positions[x.Choose(len(positions), "entropy-stream")])
+		enc := x.Pick("content-encoding", "", "zstd")
+		n := 1 + x.Choose(maxN, "uploads")
+		pair, ok := longTmpl[plen]
+		if !ok {
+			os.Setenv("STORAGE_EMULATOR_HOST", "gcs.invalid:9")
+			for h := range pair {
+				st, err := NewGCSStorage("bkt", GCSConfig{Prefix: strings.Repeat("a", plen-1) + "/"})
+				if err != nil {
+					venum.EngineError("NewGCSStorage(prefix of %d bytes): %v", plen, err)
+					return
+				}
+				pair[h] = st
+			}
+			os.Setenv("STORAGE_EMULATOR_HOST", "")
+			longTmpl[plen] = pair
+		}
+		fake.reset()
+		vsched.FreezeClock(base)
+		defer vsched.UnfreezeClock()
+		handles := [2]*GCSStorage{}
+		for h := range handles {
+			cp := *pair[h]
+			handles[h] = &cp
+			handles[h].client = client
+		}
+		type up struct {
+			key    string
+			handle int
+		}
+		var ups []up
+		var pattern []string
+		uuid.SetRand(stream)
+		defer uuid.SetRand(nil)
+		for i := 0; i < n; i++ {
+			h := 0
+			if i > 0 {
+				h = x.Choose(2, fmt.Sprintf("handle-of-upload-%d", i))
+			}
+			before, rej := len(fake.objs), fake.tooLong
+			_, err := handles[h].Upload([]byte("same-payload"), nil, enc)
+			wrote := len(fake.objs) - before
+			switch {
+			case err == nil && wrote == 1:
+				ups = append(ups, up{key: fake.objs[before].Name, handle: h})
+				pattern = append(pattern, "written")
+			case err != nil && wrote == 0 && fake.tooLong > rej:
+				pattern = append(pattern, "refused-name-too-long") // nothing written: nothing to compare
+			default:
+				venum.EngineError("long-prefix space: Upload %d: err=%v, %d objects written, refused=%d (bad=%v)", i, err, wrote, fake.tooLong-rej, fake.bad)
+				return
+			}
+		}
+		class := "prefix-leaves-room-for-the-whole-key"
+		switch {
+		case plen >= zc33MaxKey:
+			class = "prefix-fills-the-key-limit"
+		case plen+keyTail+len(".zst")*map[bool]int{true: 1}[enc == "zstd"] > zc33MaxKey:
+			class = "prefix-leaves-room-for-part-of-the-key"
+		}
+		first := map[string]int{}
+		collisions := 0
+		for j, u := range ups {
+			i, seen := first[u.key]
+			if !seen {
+				first[u.key] = j
+				continue
+			}
+			collisions++
+			two := ""
+			if ups[i].handle != u.handle {
+				two = "two-handles:"
+			}
+			x.Failf("C33:gcs:key-reused:long-prefix:"+two+class,
+				"Prefix of %d bytes (name limit %d, stream %s, encoding %q): written uploads #%d (handle %d) and #%d (handle %d) both wrote a %d-byte object name ending in %q: the later upload overwrote the earlier one",
+				plen, zc33MaxKey, stream.name(), enc, i, ups[i].handle, j, u.handle, len(u.key), u.key[len(u.key)-min(len(u.key), 50):])
+		}
+		x.Outcome("long-prefix %s uploads=%v collisions=%d", class, pattern, collisions)
+	}
+	venum.Explore(t, venum.Cfg{Name: "gcs-boundary-length-prefix", Shardable: true, CheckDeterminism: true},
+		func(x *venum.X) { longBody(x, venum.QT(2, 3), venum.QT([]int{15, 0}, []int{15, 0, -1})) })
 
 	// every interleaving of the two handles, sequences <=3 (quick) / <=4 (thorough)
 	venum.Explore(t, venum.Cfg{Name: "gcs-two-handle-sequences", Shardable: true, DevBound: -1, CheckDeterminism: true},
